@@ -284,8 +284,40 @@ fn commit_then_type_case(text: &str, optidx: usize, only_index: Option<usize>, l
     }
 }
 
+/// Long words: nothing in the statement bounds the length of the word.  Lengths around powers of two and a few
+/// odd ones, built from chained suffix keys, dictionary-guided spellings and random letters, bare and wrapped.
+fn long_words(run: &Run) {
+    let p = crate::gen::pools();
+    let lens = [13usize, 16, 17, 24, 31, 32, 33, 40, 47, 48, 49, 50, 63, 64, 65, 80, 96, 127, 128, 129, 160];
+    let mut items: Vec<Case> = vec![];
+    for (li, &len) in lens.iter().enumerate() {
+        for kind in 0..3usize {
+            let mut w = String::new();
+            let mut n = li * 7 + kind;
+            while w.len() < len {
+                match kind {
+                    0 => w.push_str(&p.suffix_keys[(n * 131) % p.suffix_keys.len()]),
+                    1 => w.push_str(&crate::gen::guided_bases()[(n * 37) % crate::gen::guided_bases().len()].0),
+                    _ => w.push("aeioukhgnrtsdlmbpcjyzwOTDNSR".as_bytes()[(hash_of(&(li, n)) as usize) % 28] as char),
+                }
+                n += 1;
+            }
+            let w: String = w.chars().filter(|c| c.is_ascii_alphanumeric()).take(len).collect();
+            for (l, t) in [("", ""), ("(", ")"), ("", "."), ("\"", "\"!"), ("-", "")] {
+                items.push(Case { lead: l.to_string(), word: w.clone(), trail: t.to_string(), raw: None, optidx: li + kind });
+            }
+        }
+    }
+    run.exhaustive("long-words", &items, |_| mk_local(), |c, st, lo| {
+        st.label("long-word-cases");
+        checked(c, lo, st)
+    });
+    run.require_label("long-word-cases", 300);
+}
+
 pub fn run(run: &Run) {
     commit_then_type(run);
+    long_words(run);
     run.sharded("one-context-toggled-off-on", 16, run.tier.pick(600, 12000), 0, strategy, mk_toggling, |c: &Case, st, lo| toggling_case(c, lo, st));
     run.require_label("toggled-context-cases", 1000);
     // exhaustive short words
